@@ -32,6 +32,12 @@ func init() {
 		skelTarget{Name: "C09.ConversionHandleEvent", File: "pkg/hook/controller/conversion_bindings_controller.go", Recv: "ConversionBindingsController", Func: "HandleEvent",
 			Fields: []string{"Links", "BindingName", "IncludeSnapshots", "Group", "FromVersion", "ToVersion", "BindingType"},
 			Calls:  []string{}},
+		// the jq helper applyFilter calls into (model: applyFilterValue / copyJ): the program runs on the plain
+		// Marshal/Unmarshal copy of the object - one straight line, no branch, nothing removed or rewritten on the way
+		skelTarget{Name: "C09.jqRun", File: "pkg/filter/jq/apply.go", Recv: "", Func: "run",
+			Fields: []string{}, Calls: []string{"Parse", "deepCopy", "Run", "Next"}},
+		skelTarget{Name: "C09.jqDeepCopy", File: "pkg/filter/jq/apply.go", Recv: "", Func: "deepCopy",
+			Fields: []string{}, Calls: []string{"Marshal", "Unmarshal", "Clone", "Copy", "delete", "DeepCopyJSON"}},
 	)
 }
 
